@@ -52,6 +52,13 @@ func GenHTML(t *Tape) *Scenario {
 		pagePath := dir + c.Name("page") + ".html"
 		pageURL := "http://" + host + pagePath
 		base, _ := url.Parse(pageURL)
+		// the queue row is the page itself, or a URL that redirects to it (the page is then one redirect behind its seed)
+		seedURL := pageURL
+		if c.Chance(1, 3) {
+			gp := "/go/" + c.Name("r")
+			seedURL = "http://" + host + gp
+			c.res(host, gp, seedURL, 0, Must, Redirect(c.PickInt(301, 302, 307), pagePath))
+		}
 		var head, body strings.Builder
 		quote := func(v string) string {
 			switch c.N(3) {
@@ -107,7 +114,7 @@ func GenHTML(t *Tape) *Scenario {
 			case ".mp4", ".mp3":
 				ct = "application/octet-stream"
 			}
-			r := c.res(abs.Host, target, pageURL, 1, exp, OK(ct, b))
+			r := c.res(abs.Host, target, seedURL, 1, exp, OK(ct, b))
 			r.Tags["c07"] = tag
 			r.Tags["ref"] = ref
 			return ref
@@ -152,14 +159,20 @@ func GenHTML(t *Tape) *Scenario {
 			pu, _ := url.Parse(ref)
 			abs := base.ResolveReference(pu)
 			c.res(abs.Host, abs.RequestURI(), "", 0, May, OK("text/html", Lit("<html><body>out</body></html>")))
+			if c.Chance(1, 4) {
+				body.WriteString(`<a href="` + c.Pick("http://h.example:abc/x", "%zz", "http://[::1", "http://h.example/%") + `">broken</a>`) // an anchor no parser accepts costs only itself
+			}
 			body.WriteString(`<a href=` + quote(ref) + `>t</a>`)
 			if cfg.MaxHops > 0 && !disabled("a") {
-				anchors[pageURL] = append(anchors[pageURL], abs.String())
+				anchors[seedURL] = append(anchors[seedURL], abs.String())
 			}
 		}
+		if na > 0 && c.Chance(1, 3) {
+			body.WriteString(`<a href="` + c.Pick("http://h.example:abc/x", "%zz", "http://[::1") + `">broken, last on the page</a>`)
+		}
 		doc := "<!DOCTYPE html><html><head><meta charset=\"utf-8\"><title>t</title>" + head.String() + "</head><body>" + body.String() + "</body></html>"
-		c.res(host, pagePath, pageURL, 0, Must, OK("text/html; charset=utf-8", Lit(doc)))
-		g.Sc.Queue = append(g.Sc.Queue, c.row(pageURL))
+		c.res(host, pagePath, seedURL, 0, Must, OK("text/html; charset=utf-8", Lit(doc)))
+		g.Sc.Queue = append(g.Sc.Queue, c.row(seedURL))
 	}
 	b, _ := json.Marshal(anchors)
 	g.Sc.Extra = map[string]string{"anchors": string(b)}
